@@ -535,6 +535,27 @@ Proof.
     replace (nth b (stamps t1) 0 - (nth a (stamps t2) 0 + off))
       with (nth b (stamps t1) 0 + - off - nth a (stamps t2) 0) by ring. exact H.
 Qed.
+(* both associated trajectories come out in increasing time order (no pose of either used twice) *)
+Lemma sorted_lt_le (l : list R) : StronglySorted Rlt l -> StronglySorted Rle l.
+Proof.
+  induction 1 as [|a r S IH F]; constructor; [exact IH|]. eapply Forall_impl; [|exact F]. intros b Hb. now apply Rlt_le.
+Qed.
+Lemma swap_sorted (m : list (nat * nat)) : StronglySorted lt_both m -> StronglySorted lt_both (swap_pairs m).
+Proof.
+  induction 1 as [|p r S IH F]; cbn; constructor; [exact IH|].
+  rewrite Forall_forall in *. intros q Hq. apply in_map_iff in Hq. destruct Hq as (q0 & <- & Hq0).
+  destruct (F q0 Hq0) as [Ha Hb]. split; cbn; assumption.
+Qed.
+Theorem associate_time_order : t1 <> [] -> t2 <> [] ->
+  StronglySorted Rlt (stamps t1) -> StronglySorted Rlt (stamps t2) -> StronglySorted lt_both assoc_pairs.
+Proof.
+  intros N1 N2 S1 S2. unfold assoc_pairs.
+  assert (E1 : stamps t1 <> []) by (destruct t1; cbn; congruence).
+  assert (E2 : stamps t2 <> []) by (destruct t2; cbn; congruence).
+  destruct (Nat.ltb (length t1) (length t2)).
+  - apply matching_time_order; [exact E2|now apply sorted_lt_le|exact S2].
+  - apply swap_sorted. apply matching_time_order; [exact E1|now apply sorted_lt_le|exact S1].
+Qed.
 End Associate.
 
 (* ---------- regression witness for finding F2 (pre-repair code) ---------- *)
